@@ -408,7 +408,7 @@ func edgeOps() []op {
 		{"send3 wf->x", 0, func() gen.Stmt { return sendN(U, "3", sa(wf), da("x")) }},
 		{"send* wf->x", 0, func() gen.Stmt { return sendAllS(U, sa(wf), da("x")) }},
 		{"send2 a unbounded->x", 0, func() gen.Stmt { return sendN(U, "2", &gen.SrcOverdraft{Addr: gen.Acct("a")}, da("x")) }},
-		{"send4 {a+od3 b}->x", 0, func() gen.Stmt { return sendN(U, "4", lst(over("a", U, "3"), sa("b")), da("x")) }},
+		{"send3 {a+od3 b}->x", 0, func() gen.Stmt { return sendN(U, "3", lst(over("a", U, "3"), sa("b")), da("x")) }},
 		{"send2 a->world", 0, func() gen.Stmt { return sendN(U, "2", sa("a"), da("world")) }},
 		{"send4 {a b}->{1/2 world, 1/2 x}", 0, func() gen.Stmt { return sendN(U, "4", lst(sa("a"), sa("b")), half("world", "x")) }},
 		{"send3 {a world}->x", 0, func() gen.Stmt { return sendN(U, "3", lst(sa("a"), sa("world")), da("x")) }},
